@@ -85,7 +85,7 @@ def main(argv=None):
         shutil.rmtree(scratch, ignore_errors=True)
 
 
-def selftest_phase(pid, functions, known, scratch, timeout_ms):
+def selftest_phase(pid, functions, known, scratch, timeout_ms, out_of_scope=()):
     """Apply each deliberate edit of selftest/mutations.py that targets this property to a scratch copy of the package and re-verify the
     functions it touches: a property-breaking edit must fail some obligation, a harmless one must fail none (proof only, no stand-in)."""
     from pyvc import front
@@ -134,7 +134,7 @@ def selftest_phase(pid, functions, known, scratch, timeout_ms):
                 if m_.get("error") or m_.get("unsupported"):
                     bad += 0 if mu["harmless"] else 1
                     continue
-                bad += sum(1 for r in m_["results"] if r["result"] != "unsat" and match_known(known, r["name"]) is None)
+                bad += sum(1 for r in m_["results"] if r["result"] != "unsat" and match_known(known, r["name"]) is None and not any(re.search(pt, r["name"]) for pt in out_of_scope))
             verdict = ("OK-stays-green" if bad == 0 else "FALSE-ALARM") if mu["harmless"] else ("OK-refused" if bad else "MISSED")
             out["results"].append((mu["id"], verdict))
             shutil.rmtree(d, ignore_errors=True)
@@ -325,7 +325,7 @@ def do_check(prop, pid, tier, seed, a, scratch, t0):
     # ---- thorough tier: the mutation self-test of this property's cone (is a broken body still refused?)
     selftest = None
     if tier == "thorough" and not errors and not vio_lines and not os.environ.get("PYVC_REPO"):
-        selftest = selftest_phase(pid, functions, known, scratch, timeout_ms)
+        selftest = selftest_phase(pid, functions, known, scratch, timeout_ms, oos_pats)
         for mid, verdict in selftest["results"]:
             if verdict in ("MISSED", "FALSE-ALARM", "PATTERN-NOT-FOUND"):  # (a pattern that no longer applies means the self-test entry is stale)
                 errors.append("self-test: mutant %s of this cone: %s" % (mid, verdict))
